@@ -66,7 +66,7 @@ def lastErr (as : List (Attempt α)) : Option Nat :=
 /-- one emit.  `pend` = acknowledged, not yet written lines. -/
 def ckEmit (c : Cfg α) (pend : List (List α)) (m : List α) (o : OpObs α) : Ck (List (List α)) :=
   let req := m.length + c.ending.length
-  if o.res = .panic then viol "C20" "emit panicked" else
+  if o.res = .panic then viol "C07+C20" "emit panicked" else
   if req > c.cap then
     -- oversize: sent alone, unmodified, during its own emit
     match o.atts with
@@ -98,10 +98,10 @@ def ckEmit (c : Cfg α) (pend : List (List α)) (m : List α) (o : OpObs α) : C
       if lastErr o.atts ≠ some k then viol "C07" "error returned is not the error of a write attempted in this call"
       else if mDelivered && !(m ++ c.ending).isEmpty then viol "C07" "metric reported as failed was written"
       else pure (if mDelivered then rest else rest.dropLast)
-    | .panic => viol "C20" "emit panicked"
+    | .panic => viol "C07+C20" "emit panicked"
 
 def ckFlush (c : Cfg α) (pend : List (List α)) (o : OpObs α) : Ck (List (List α)) := do
-  if o.res = .panic then viol "C20" "flush panicked" else
+  if o.res = .panic then viol "C07+C20" "flush panicked" else
   let r ← ckAtts c pend o.atts
   match o.res with
   | .ok _ =>
@@ -110,10 +110,10 @@ def ckFlush (c : Cfg α) (pend : List (List α)) (o : OpObs α) : Ck (List (List
   | .err k =>
     if lastErr o.atts ≠ some k then viol "C07" "error returned is not the error of a write attempted in this call"
     else pure r.1
-  | .panic => viol "C20" "flush panicked"
+  | .panic => viol "C07+C20" "flush panicked"
 
 def ckDrop (c : Cfg α) (pend : List (List α)) (o : OpObs α) : Ck Unit := do
-  if o.res = .panic then viol "C20" "drop panicked" else
+  if o.res = .panic then viol "C07+C20" "drop panicked" else
   let r ← ckAtts c pend o.atts
   if !r.2.1 && !(frame c r.1).isEmpty then viol "C06" "dropped without writing the remaining lines"
   else pure ()
